@@ -1,6 +1,9 @@
 """C05 configuration for bin/check."""
 
-CFG = {'assumptions': ['min/max on i64 are the modelled lattices'],
+CFG = {'assumptions': ['min/max/bit-or/bit-and on i64 are the modelled lattices',
+                 'usize arithmetic of SchemaMath does not overflow; func_cols >= 1',
+                 'the scratch row handed to the merge callback is empty (core-relations clears it after '
+                 'every call)'],
  'corr_is_violation': True,
  'harness': [{'bin': 'h_egg', 'extra': ['--prop', 'C05'], 'name': 'h_egg', 'prefix': 'cases_egg'},
              {'bin': 'h_egg',
@@ -10,18 +13,50 @@ CFG = {'assumptions': ['min/max on i64 are the modelled lattices'],
               'extra': ['--prop', 'C05', '--threads', '4', '--cases', '60'],
               'name': 'h_egg_par',
               'prefix': 'cases_egg'}],
- 'link_only': 'set-union / set-intersect / nested function merges (containers) are exercised by the '
-              'engine-side predicate only; the parallel insertion path is covered by running the same '
-              'sessions with 4 threads and cut-offs 0',
+ 'link_only': 'the correspondence between the regenerated callback and Egg/Model.v tab_insert (same '
+              'collision row: merged value + combined flag) is by inspection of the two definitions, not yet '
+              'a refinement lemma; MergeFn::resolve and translate_expr_to_mergefn (frontend merge expression '
+              '-> MergeFn) are not translated; set-union / set-intersect / nested function merges '
+              '(containers) are exercised by the engine-side predicate only (the nested-function ARM of run '
+              'is translated and its argument order proved); the parallel insertion path is covered by '
+              'running the same sessions with 4 threads and cut-offs 0',
  'model_targets': ['Egg/Rules.vo'],
  'proof_targets': ['Props/C05.vo'],
- 'theorem_backed': 'every collision path of core-relations/src/table/mod.rs as written now (regenerated inventory: serial x2, parallel flush, in-batch staging) stores the MERGED row, hence keeps the fold; staging + flush = fold over the stored value; fold algebra (permutation, batching, idempotence), table-level: value after any write '
-                   'sequence = fold of the lattice merge, order-irrelevance, batching, collisions created by '
-                   'rebuild go through the merge, :no-merge conflict flag',
- 'tier_a': ['UFSeq', 'MergeArms', 'BridgeFns', 'Facts.collision_sites'],
+ 'theorem_backed': 'every collision path of core-relations/src/table/mod.rs as written now (regenerated '
+                   'inventory: serial x2, parallel flush, in-batch staging) stores the MERGED row, hence '
+                   'keeps the fold; staging + flush = fold over the stored value; fold algebra (permutation, '
+                   'batching, idempotence), table-level: value after any write sequence = fold of the '
+                   'lattice merge, order-irrelevance, batching, collisions created by rebuild go through the '
+                   'merge, :no-merge conflict flag; REGENERATED bridge code (gen/SchemaFns.v): row layout '
+                   'for all arities and flag values (c05_schema_layout: keys = [0,num_keys), ret < ts < '
+                   'subsume pairwise distinct, inside the width, no other column); ResolvedMergeFn::run arms '
+                   'Const/Old/New, AssertEq (old value kept, panic function called iff values differ), '
+                   'Primitive and Function calls receive [old; new] in source order, nested calls inside-out '
+                   '(c05_run_*); the merge callback for any arity / flag / merge function: merge run on (cur '
+                   'value, new value, NEW timestamp), the row the table holds afterwards has the merged '
+                   'value, a produced row has the incoming keys and timestamp, nothing is written when '
+                   'nothing changed so the old timestamp stays (c05_callback_value, '
+                   'c05_callback_changed_iff)',
+ 'tier_a': ['UFSeq',
+            'MergeArms',
+            'BridgeFns',
+            'Facts.collision_sites',
+            'SchemaFns.SchemaMath',
+            'SchemaFns.combine_subsumed',
+            'SchemaFns.to_callback',
+            'SchemaFns.ResolvedMergeFn',
+            'SchemaFns.run'],
  'trusted': ['translator /verif/translator: gen/UFSeq.v (union-find), gen/MergeArms.v (UnionId=min, Old, '
              'New), gen/BridgeFns.v (combine_subsumed) are regenerated from the source on every run and used '
              'by Egg/Model.v',
              'hand-written model coq/Egg/Model.v + Egg/Rules.v (naive matching, term-level commands) tied to '
              'the engine by the correspondence check h_egg (observations after every command: class vector '
-             'of probe terms up to depth 3, table sizes, subsumed counts, int-valued probes)']}
+             'of probe terms up to depth 3, table sizes, subsumed counts, int-valued probes)',
+             'translator module x_schema.rs: gen/SchemaFns.v is regenerated from egglog-bridge/src/lib.rs on '
+             'every run: SchemaMath column arithmetic (num_keys, table_columns, ret_val_col, ts_col, '
+             'subsume_col) and write_table_row, SUBSUMED/NOT_SUBSUMED/combine_subsumed over N, the closure '
+             'body of MergeFn::to_callback (statement by statement, mutable variables threaded), the enum '
+             'ResolvedMergeFn and every arm of ResolvedMergeFn::run (structural Fixpoint; recursive calls '
+             'keep the source argument order); usize +/- are unbounded N / truncated (theorems carry 1 <= '
+             'func_cols); the ExecutionState is an effect log with oracle results (Egg/SchemaPrelude.v, '
+             'hand-written semantics of call_external_func / stage_insert / lookup_or_insert)']}
